@@ -66,6 +66,19 @@ func (t *fnTrans) call(c *ssa.CallCommon, res ssa.Value, pos token.Pos) Val {
 	}
 	fn := c.StaticCallee()
 	if fn == nil && !c.IsInvoke() {
+		// call through a function-typed struct field: keyed `fieldfunc:<pkgpath>.<Type>.<field>` so that
+		// contracts (extern) and benign entries can name it
+		if ld, ok := c.Value.(*ssa.UnOp); ok && ld.Op == token.MUL {
+			if fa, ok := ld.X.(*ssa.FieldAddr); ok {
+				if pt, ok := fa.X.Type().Underlying().(*types.Pointer); ok {
+					if n, ok := types.Unalias(pt.Elem()).(*types.Named); ok && n.Obj().Pkg() != nil {
+						key = "fieldfunc:" + n.Obj().Pkg().Path() + "." + n.Obj().Name() + "." + n.Underlying().(*types.Struct).Field(fa.Field).Name()
+					}
+				}
+			}
+		}
+	}
+	if fn == nil && !c.IsInvoke() {
 		// call of a function value: statically known closure?
 		v := t.val(c.Value)
 		if v.Fn != nil {
@@ -632,6 +645,23 @@ func (t *fnTrans) resolveMod(item string, env *Env) []modTarget {
 			}
 		}
 	case *ESelect:
+		if inner, ok := x.X.(*ESelect); ok {
+			if pid, ok := inner.X.(*EIdent); ok && !isBound(pid.Name) {
+				// pkg.Type.field: the whole field array of a type of another package
+				if ty := t.eng.resolveType(pid.Name+"."+inner.Sel, env.pkg); ty != nil {
+					if s, ok := ty.Underlying().(*types.Struct); ok {
+						for i := 0; i < s.NumFields(); i++ {
+							if s.Field(i).Name() == x.Sel {
+								if at, ok := s.Field(i).Type().Underlying().(*types.Array); ok {
+									return []modTarget{{name: t.elemsVar(at.Elem()).Name}}
+								}
+								return []modTarget{{name: t.fieldVar(ty, i).Name}}
+							}
+						}
+					}
+				}
+			}
+		}
 		if id, ok := x.X.(*EIdent); ok && !isBound(id.Name) {
 			// Type.field: the whole field array
 			if ty := t.eng.resolveType(id.Name, env.pkg); ty != nil {
